@@ -7,9 +7,9 @@ import glob, json, os, re, subprocess, sys
 
 kind = sys.argv[1]
 sub = "_seed" if kind in ("seeds", "seeds5") else "_twin"
-pref = {"seeds": "s", "seeds5": "u", "twins": "t"}[kind]
-suffix = "-r5" if kind == "seeds5" else ""
-rnd = {"seeds": "4", "seeds5": "5", "twins": "twins-2"}[kind]
+pref = {"seeds": "s", "seeds5": "u", "twins": "t", "twins3": "v"}[kind]
+suffix = {"seeds5": "-r5", "twins3": "-r3"}.get(kind, "")
+rnd = {"seeds": "4", "seeds5": "5", "twins": "twins-2", "twins3": "twins-3"}[kind]
 wts = [f"/tmp/wt_{pref}{x}" for x in sys.argv[2:]] or sorted(glob.glob(f"/tmp/wt_{pref}[0-9][0-9]"))
 
 
@@ -44,4 +44,4 @@ for wt in wts:
             needs = section(notes, [r"manifest", r"trigger", r"needed"])
             subprocess.run(["/verif/tools/keep_seed.py", wt, name, pid, "--breaks", breaks, "--needs", needs, f"--suffix={suffix}", "--round", rnd])
         else:
-            subprocess.run(["/verif/tools/keep_twin.py", wt, name, pid])
+            subprocess.run(["/verif/tools/keep_twin.py", wt, name, pid, f"--suffix={suffix}", "--round", rnd])
